@@ -442,7 +442,36 @@ def str_calls(strings, full):
             out.append(("parse_float", s, []))
         for radix in ((1, 2, 10, 16, 36, 37) if full else (1, 2, 16, 36, 37)):
             out += [("parse_int_radix", s, [I(radix)]), ("parse_bigint_radix", s, [I(radix)])]
-    return [c for c in out if not (c[1].startswith("0x") or (c[1].startswith("0b") and c[0] != "parse_byte"))]
+    # receivers that carry the marker `0x` / `0b`: what `"0x10".parse_int()` should be (16, 10 or nil) is not specified and
+    # stays outside the domain, but a text that is not a number in ANY reading - the marker repeated, the marker alone, the
+    # marker before something that is not a number in a radix up to 33 - is in the domain and yields nil
+    for s in ("0x0x10", "0x0x0x-3", "0x0x", "0x", "0x 5", "0x-", "0x+", "0xz1", "0x1x0", "0x0b1", "0X10", "0b0b1", "0b0b", "0b 1", "0b0x1"):
+        out += [("parse_int", s, []), ("parse_bigint", s, []), ("parse_byte", s, [])]
+        for radix in (2, 10, 16, 33):
+            out += [("parse_int_radix", s, [I(radix)]), ("parse_bigint_radix", s, [I(radix)])]
+    return [c for c in out if not marker_ambiguous(c)]
+
+
+def marker_ambiguous(c):
+    """True for a parse call whose receiver starts with a radix marker and could be a number in some reading"""
+    method, s = c[0], c[1]
+    if not isinstance(s, str) or not method.startswith("parse"):
+        return False
+    if s.startswith("0b"):
+        if method == "parse_byte":
+            return False                    # modelled: one marker, then binary digits
+        return parse_int_like(s[2:], 36, -10 ** 60, 10 ** 60) is not None or s[2:3] in ("+", "-") and parse_int_like(s[3:], 36, -10 ** 60, 10 ** 60) is not None
+    if s.startswith("0x"):
+        if method not in ("parse_int", "parse_bigint", "parse_int_radix", "parse_bigint_radix"):
+            return True
+        radix = 16
+        if method.endswith("_radix"):
+            r = c[2][0].v if isinstance(c[2][0], Num) else c[2][0]
+            if not (2 <= r <= 33):
+                return True
+            radix = max(16, r)
+        return parse_int_like(s[2:], radix, -10 ** 60, 10 ** 60) is not None
+    return False
 
 
 def num_calls(tier):
@@ -495,8 +524,12 @@ def random_case(draw):
                 "split": lambda: [ix()], "index": lambda: [ix()], "index_of": lambda: [draw(st.text(alphabet="abcXY zé", max_size=2))],
                 "contains": lambda: [draw(st.text(alphabet="abcXY z", max_size=2))], "replace": lambda: [draw(st.text(alphabet="abcXY z", min_size=1, max_size=2)), draw(st.text(alphabet="ab", max_size=2))],
                 "repeat": lambda: [I(g.int(-1, 4))], "parse_int_radix": lambda: [I(g.int(0, 38))]}.get(method, lambda: [])()
-        if method.startswith("parse") and (s.startswith("0x") or s.startswith("0b")):
+        if method.startswith("parse") and g.chance(12):
+            s = g.choice(["0x", "0x0x", "0b0b", "0x0x0x", "0b0x"]) + s      # repeated markers: never a number
+        if marker_ambiguous((method, s, args)):
             s = s[2:]
+            if marker_ambiguous((method, s, args)):
+                s = "7"
         return {"calls": [(method, s, args)]}
     from .c05 import operand
     k = g.choice(["int", "bigint", "float", "byte"])
